@@ -81,6 +81,8 @@ Expected(e) ==
                ELSE IF InRange(T, x) THEN val(x) ELSE err("overflow or underflow")
        [] e.op \in {"satadd", "satsub", "satmul"} /\ T.scale = 0 -> val(Clamp(T, Exact(e.op, e.a, e.b)))
        [] e.op \in {"divmod", "satdiv"} /\ ZIsZero(e.b) -> err("divzero")
+       [] e.op = "satdiv" /\ T.scale = 0 /\ QuotientOutOfRange(T, e.a, e.b) -> val(TMax(T))
+       [] e.op = "divmod" /\ QuotientOutOfRange(T, e.a, e.b) -> err("overflow or underflow (remainder 0)")
        [] e.op \in BitOps -> val(ZBitOpT(bt, e.op, T.signed, WidthFor(T, e.a, e.b), e.a, e.b))
        [] e.op \in ShiftOps /\ e.b.n -> err("negshift")
        [] e.op = "shl" /\ T.bits > 0 -> val(ShlBounded(T, e.a, e.b))
